@@ -14,8 +14,8 @@ def classify(case_line):
 
 CFG = dict(
     classify=classify,
-    imports=["From Verif.Common Require Import Packet PolicyRef Labels.", "From Verif.C05 Require Import Model Spec."],
-    checker="check_case",
+    imports=["From Verif.Common Require Import Packet PolicyRef Labels.", "From Verif.C05 Require Import Model Spec ModelSync SpecSync."],
+    checker="check_scase",
     n=dict(quick=120, thorough=3000),
     shard=15,
     rule="histories of 10-37 datastore updates, delivered to the real ValidationFilter.OnUpdates in BATCHES (a start-of-day "
